@@ -65,6 +65,12 @@ pub struct Model {
     pub far_next: u64,
     /// lowest address a hint can be honoured at (Linux: max(mmap_min_addr, 0x10000) for hints)
     pub min_hint: u64,
+    /// ranges [start, end) the harness keeps mapped rwx itself: a placement inside one needs no
+    /// backing of its own (its first bytes are cleared instead, as a fresh page would be)
+    pub arenas: Vec<(u64, u64)>,
+    /// ranges [start, end) occupied by somebody else whatever the layout says (the scenario's
+    /// own target and fake pages)
+    pub occupied: Vec<(u64, u64)>,
 }
 
 impl Model {
@@ -76,6 +82,8 @@ impl Model {
             script: VecDeque::new(),
             far_next: 0x6000_0000_0000,
             min_hint: 0x1_0000,
+            arenas: Vec::new(),
+            occupied: Vec::new(),
         }
     }
 }
@@ -99,6 +107,8 @@ pub struct Env {
     pub page_size_override: Option<u64>,
     /// regions (address, length) snapshotted at every logged call
     pub watch: Vec<(u64, u64)>,
+    /// owned placements that live inside a harness arena
+    pub arena_owned: std::collections::BTreeSet<u64>,
 }
 
 impl Env {
@@ -117,6 +127,7 @@ impl Env {
             mprotect_fail_at: None,
             page_size_override: None,
             watch: Vec::new(),
+            arena_owned: std::collections::BTreeSet::new(),
         }
     }
 
@@ -223,6 +234,9 @@ fn model_is_free(e: &Env, m: &Model, page: u64, len: u64) -> bool {
             return false;
         }
     }
+    if m.occupied.iter().any(|&(s, t)| page < t && page + len > s) {
+        return false;
+    }
     match &m.layout {
         Layout::Empty => true,
         Layout::Full => false,
@@ -305,10 +319,21 @@ pub unsafe extern "C" fn mmap(
                 }
             }
             if let Some((p, far)) = place {
+                let in_arena = m.arenas.iter().any(|&(s, t)| p >= s && p + rlen <= t);
                 let back = !far || m.back_far;
-                let ok = if back { real_map_fixed(p, rlen) } else { true };
+                let ok = if in_arena {
+                    std::ptr::write_bytes(p as *mut u8, 0, 64);
+                    true
+                } else if back {
+                    real_map_fixed(p, rlen)
+                } else {
+                    true
+                };
                 if ok {
-                    e.owned.insert(p, (rlen, back));
+                    e.owned.insert(p, (rlen, (back || in_arena) && !(in_arena && false)));
+                    if in_arena {
+                        e.arena_owned.insert(p);
+                    }
                     ret = p;
                 } else {
                     e.errors.push(format!(
@@ -349,7 +374,9 @@ pub unsafe extern "C" fn munmap(addr: *mut rl::c_void, len: rl::size_t) -> rl::c
             match e.owned.get(&a).copied() {
                 Some((olen, backed)) if olen == rlen => {
                     e.owned.remove(&a);
-                    if backed {
+                    if e.arena_owned.remove(&a) {
+                        // stays mapped by the harness
+                    } else if backed {
                         rl::munmap(addr, rlen as usize);
                     }
                     ret = 0;
